@@ -22,6 +22,7 @@ def records():
         from flow.record import GroupedRecord
 
         _RECS.insert(1, recs.build_record(selgrammar.SAME_NAME_OTHER_FIELDS))
+        _RECS.insert(3, recs.build_record(selgrammar.SAME_NAMES_OTHER_TYPES))
         other = recs.build_record(recs.rs("sel/other", [["string", "o"], ["varint", "n"]], ["'other'", "77"]))
         _RECS.append(GroupedRecord("sel/grouped", [recs.build_record(selgrammar.RECORDS[0]), other]))
     return _RECS
